@@ -1352,3 +1352,11 @@ mut("forward_shadowed_put_with_equal_key_yielded", ["C04", "C03"], "ITR-2", file
 mut("backward_leaves_key_on_equal_user_key", ["C04", "C03"], "ITR-1", file="src/iterator.rs",
     old="""                        && current_key.get_user_key() < self.cached_user_key.as_ref().unwrap()""",
     new="""                        && current_key.get_user_key() <= self.cached_user_key.as_ref().unwrap()""")
+mut("log_trailer_skipped_eagerly", ["C12", "C16", "C02"], "GRD-6|logs::LogReader::read_physical_record|parsed-fragment-is-returned", patch="log_trailer_skipped_eagerly.diff",
+    note="the last record of a log ending 1..6 bytes before a block boundary is dropped")
+mut("recovered_wal_number_marked_conditionally", ["C08", "C02", "C16"], "ORD-6|db::DB::recover_unrecorded_logs|mark-file-number-used", patch="recovered_wal_number_marked_conditionally.diff")
+mut("manifest_number_adopted_before_reuse_decided", ["C11"], "GRD-24", patch="manifest_number_adopted_before_reuse_decided.diff")
+mut("gc_before_release_inputs", ["C11"], "ORD-18", patch="gc_before_release_inputs.diff")
+mut("replay_skips_short_records", ["C01", "C02", "C06"], "ORD-6|db::DB::recover_wal_records|every-record-applied", patch="replay_skips_short_records.diff")
+mut("batch_count_decoded_as_u8", ["C01", "C02", "C08"], "AGR-2", patch="batch_count_decoded_as_u8.diff")
+mut("block_handle_offset_u32", ["C13", "C01"], "AGR-2", file="src/tables/block_handle.rs", old="value.offset.encode_var_vec()", new="(value.offset as u32).encode_var_vec()", suite=False)
